@@ -8,12 +8,13 @@ Every random choice comes from random.Random(seed)."""
 import glob
 import os
 import random
+import re
 import struct
 
 NP = 8
 PLEN = 16384
 LAST = 5000
-ROLES = ["leech", "leechdone", "seed", "iseed"]
+ROLES = ["leech", "leechdone", "seed", "iseed", "meta"]
 
 
 def be32(v):
@@ -81,6 +82,9 @@ def gen_valid(rng, role, state):
         return M(msg(8, be32(i) + be32(rng.choice([0, 1024])) + be32(rng.choice([1000, 16384]))), "cancel")
     if r < 0.82:
         return M(msg(9, struct.pack(">H", rng.randrange(65536))), "port")
+    if r < 0.90 and role == "meta":
+        n = rng.choice([0, 1, 2, 7, 100, 506, 507, 508, 600])
+        return M(msg(5, bytes(rng.randrange(256) for _ in range(n))), "bitfield")
     if r < 0.90 and role == "leech":
         n = rng.choice([0, 1, 50, 300, 499, 600, 3000])
         return M(msg(7, be32(rng.randrange(NP)) + be32(rng.choice([0, 16384 - n if n else 0])) + bytes(rng.randrange(256) for _ in range(n))), "piece-unrequested")
@@ -96,6 +100,12 @@ MUTATIONS = ["len+1", "len-1", "len0", "len2^20", "len2^20+1", "len2^31", "lenma
 def mutate(rng, role, msgs, which):
     """returns (msgs', tag). Single-field mutation at / insertion after a random position."""
     k = rng.randrange(len(msgs)) if msgs else 0
+    if which.startswith("len") or which.startswith("id"):
+        # the close verdict of an extension message is derived from its generated content: keep those intact
+        ok = [i for i, m in enumerate(msgs) if not (m.ext and (m.extclose or role == "meta" or m.tag in ("ext-hs", "ext-mdreq")))]
+        if not ok:
+            return msgs, "none"
+        k = rng.choice(ok)
 
     def repl_len(v):
         m = msgs[k]
@@ -174,7 +184,27 @@ def make_case(rng, role, msgs, bits="-", pre=0, ho=b"", nseg=None):
     for m in msgs:
         p += len(m.raw)
         bounds.append(p)
-    xv = "".join("1" if m.extclose else "0" for m in msgs if m.ext) or "-"
+    if role == "meta":
+        # PeerConnectionMetadata drops the peer after any extension message while ut_metadata is not advertised;
+        # the first metadata_size fixes the size, a different / out-of-range one is a communication_error
+        bits, pre = "-", 0
+        supported, msize, v = False, None, []
+        for m in msgs:
+            if not m.ext:
+                continue
+            close = False
+            if m.tag == "ext-hs":
+                supported = True
+            elif m.tag == "ext-hs-badsize":
+                val = int(re.search(rb"metadata_sizei(\d+)e", m.raw).group(1))
+                if val == 0 or val > (1 << 26) or (msize is not None and val != msize):
+                    close = True
+                elif msize is None:
+                    msize = val
+            v.append("1" if (close or not supported) else "0")
+        xv = "".join(v) or "-"
+    else:
+        xv = "".join("1" if m.extclose else "0" for m in msgs if m.ext) or "-"
     if ho:
         stream = stream[len(ho):]
         bounds = [b - len(ho) for b in bounds]
@@ -182,7 +212,7 @@ def make_case(rng, role, msgs, bits="-", pre=0, ho=b"", nseg=None):
     if nseg:
         segs = segs[:nseg]
     return "role=%s np=%d bits=%s pre=%d cu=1 xv=%s ho=%s stream=%s segs=%s" % (
-        role, NP, bits, pre, xv, ho.hex() or "-", stream.hex() or "-", "/".join(segs))
+        role, 1 if role == "meta" else NP, bits, pre, xv, ho.hex() or "-", stream.hex() or "-", "/".join(segs))
 
 
 def hand_cases(rng):
@@ -191,11 +221,16 @@ def hand_cases(rng):
         # every message kind once, with markers
         ms = [M(be32(0), "ka"), M(msg(2), "int"), M(msg(4, be32(3)), "have"), M(msg(6, be32(0) + be32(0) + be32(1000)), "req"),
               M(msg(8, be32(0) + be32(0) + be32(1000)), "can"), M(msg(9, b"\x1a\xe1"), "port"), M(msg(1), "unchoke"), M(msg(0), "choke"),
-              M(msg(20, b"\x00d1:md11:ut_metadatai2eee"), "ext", True), M(msg(4, be32(6)), "have"), M(msg(3), "notint"), M(msg(2), "int")]
+              M(msg(20, b"\x00d1:md11:ut_metadatai2eee"), "ext-hs", True), M(msg(4, be32(6)), "have"), M(msg(3), "notint"), M(msg(2), "int")]
         out.append(make_case(rng, role, ms, pre=1))
         out.append(make_case(rng, role, ms, pre=0))
         # bitfield completed by a HAVE: seed / done close, leech / initial seed dequeue
-        out.append(make_case(rng, role, [M(msg(2), "int"), M(msg(4, be32(7)), "have"), M(msg(2), "int"), M(msg(4, be32(0)), "have")], bits="11111110"))
+        if role != "meta":
+            out.append(make_case(rng, role, [M(msg(2), "int"), M(msg(4, be32(7)), "have"), M(msg(2), "int"), M(msg(4, be32(0)), "have")], bits="11111110"))
+        else:
+            hs = M(msg(20, b"\x00d1:md11:ut_metadatai2eee"), "ext-hs", True)
+            for n in (0, 1, 2, 300, 502, 503, 504, 700):
+                out.append(make_case(rng, role, [M(msg(5, bytes(n)), "bitfield"), M(msg(2), "int"), hs, M(msg(5, bytes(3)), "bitfield"), M(be32(0xffffffff) + b"\x00", "badlen")]))
         # CHOKE with a lying length: the rest is parsed as messages (static-length messages are not verified)
         out.append(make_case(rng, role, [M(be32(100) + bytes([0]), "choke-len100"), M(msg(4, be32(1)), "have")]))
         # PIECE in every role
@@ -252,7 +287,7 @@ def gen(seed, tier):
     n_raw = 60 if tier == "quick" else 400
     n_free = 40 if tier == "quick" else 200
     for k in range(n_grammar):
-        role = ROLES[k % 4]
+        role = ROLES[k % 5]
         state = {}
         msgs = [gen_valid(rng, role, state) for _ in range(rng.randrange(1, 14))]
         which = rng.choice(MUTATIONS) if k >= len(MUTATIONS) * 2 else MUTATIONS[k % len(MUTATIONS)]
@@ -269,7 +304,7 @@ def gen(seed, tier):
         b = "<64" if ln < 64 else "<512" if ln < 512 else "<4096" if ln < 4096 else ">=4096"
         stats["stream_len"][b] = stats["stream_len"].get(b, 0) + 1
     for k in range(n_raw):
-        role = ROLES[k % 4]
+        role = ROLES[k % 5]
         n = rng.randrange(0, 64)
         raw = bytes(rng.randrange(256) for _ in range(n))
         if rng.random() < 0.6 and n >= 5:
